@@ -16,7 +16,8 @@ def lifecycle(draw):
   ops = []
   for _ in range(n):
     k = draw(st.sampled_from(["start", "start", "stop", "stop_quietly", "subscribe", "publish", "publish",
-                              "settle", "start_object", "post", "clear", "object_publish", "race"]))
+                              "settle", "start_object", "post", "clear", "object_publish", "race", "poison",
+                              "object_print", "wake_stale"]))
     if k in ("subscribe", "publish"):
       ops.append([k, draw(st.sampled_from(SIGS))])
     else:
@@ -25,9 +26,22 @@ def lifecycle(draw):
   # a fixed tail every history goes through: an object that outlives a quiet stop publishes,
   # the fabric must stay stopped; then restart
   ops += [["start"], ["clear"], ["subscribe", "VB"], ["publish", "VB"], ["settle"],     # clear() on a running fabric
-          ["start_object"], ["settle"], ["stop_quietly"], ["object_publish"], ["settle"],
+          ["start_object"], ["settle"], ["stop_quietly"], ["object_publish"], ["object_print"], ["settle"], ["wake_stale"],
           ["stop"], ["start"], ["settle"]]
-  return {"ops": ops, "schedule": [list(x) for x in draw(schedule_st)]}
+  return {"ops": ops, "schedule": [list(x) for x in draw(schedule_st)],
+          "live_objects": draw(st.booleans())}       # the objects hand live spy/trace output to the shared writer
+
+
+class DeliberatePoison(Exception):
+  """Raised on purpose by a generated subscriber: it takes one delivery thread down."""
+
+
+class PoisonQueue:
+  def append(self, e):
+    raise DeliberatePoison("this subscriber's append raises")
+
+  def appendleft(self, e):
+    raise DeliberatePoison("this subscriber's appendleft raises")
 
 
 class C13(Prop):
@@ -36,9 +50,10 @@ class C13(Prop):
   thorough_examples = 4000
   rule = ("Generated lifecycles of the real ActiveFabric under the deterministic scheduler: up to 12 "
           "operations from start, stop, clear, subscribe(recorder, signal), publish(signal), settle, "
-          "start an ActiveObject, post to it, and 'race': stop() and start() called at the same time from two "
+          "an object's print() (two lines handed to the shared output writer), start an ActiveObject (in half of the cases with live spy/trace output on), post to it, and 'race': stop() and start() called at the same time from two "
           "threads (afterwards: never two delivery threads of one kind alive, and a following stop() ends "
-          "everything - which call wins is not asserted); then stop, start, and a final round that subscribes a "
+          "everything - which call wins is not asserted), and 'poison': a subscriber whose append raises takes the lifo "
+          "delivery thread down (is_alive() must then say False and the next start() brings the thread back); then stop, start, and a final round that subscribes a "
           "fresh recorder, publishes and settles. Delivery threads are identified black-box as the "
           "threads spawned during start() calls. Oracle: at every settle at most two of them are "
           "alive; is_alive() is true exactly when two are alive after a start() and false after a "
@@ -85,7 +100,7 @@ class C13(Prop):
     for s_ in SIGS + ["VC"]:
       signals.append(s_)
     rec = aocheck.Rec()
-    flags = {"start_while_running": False, "race": False}
+    flags = {"start_while_running": False, "race": False, "poison": False}
 
     def body(s):
       af = ao.ActiveFabric()
@@ -98,6 +113,7 @@ class C13(Prop):
       objects = []
       stale = []                   # objects started under a fabric run that has since been stopped
       nid = [0]
+      degraded = [False]
       A = aocheck.make_ao_class(rec)
 
       def alive_fabric():
@@ -114,6 +130,13 @@ class C13(Prop):
         if len(live) > 2:
           raise PropertyViolation("%s: %d delivery threads are alive (%s)" % (
             where, len(live), [t.name for t in live]), "C13:too-many-threads")
+        if degraded[0]:
+          # one delivery thread was taken down by a subscriber that raises: is_alive() says so
+          if af.is_alive():
+            raise PropertyViolation("%s: is_alive() says True, %d delivery thread(s) are alive (%s)" % (
+              where, len(live), [t.name for t in live]), "C13:is_alive")
+          del pending[:]
+          return
         if running and len(live) != 2:
           raise PropertyViolation("%s: the fabric was started but %d delivery threads are alive" % (
             where, len(live)), "C13:not-running")
@@ -146,11 +169,24 @@ class C13(Prop):
       for idx, op in enumerate(case["ops"] + [["final"]]):
         where = "op %d %s" % (idx, op)
         k = op[0]
-        if k == "start":
+        if k == "poison":
+          # a subscriber whose append raises takes the lifo delivery thread down (that thread's
+          # exception is expected); is_alive() must say so and the next start() must bring it back
+          if running and not degraded[0]:
+            signals.append("VP")
+            af.subscribe(PoisonQueue(), Event(signal=signals["VP"]), queue_type="lifo")
+            af.publish(Event(signal=signals["VP"], payload=-7))
+            s.quiesce()
+            degraded[0] = True
+            epoch[0] += 1
+            flags["poison"] = True
+            settle(where)
+        elif k == "start":
           if running:
             flags["start_while_running"] = True
           do_start()
           running = True
+          degraded[0] = False
           if len(alive_fabric()) > 2:
             raise PropertyViolation("%s: start() left %d delivery threads alive" % (
               where, len(alive_fabric())), "C13:too-many-threads")
@@ -160,10 +196,28 @@ class C13(Prop):
             nid[0] += 1
             pending.append((nid[0], "VA", running, epoch[0], "VA" in recorders))
             c.publish(Event(signal=signals["VA"], payload=nid[0]))
+        elif k == "wake_stale":
+          # the objects that outlived a quiet stop are woken while the fabric is still stopped: each
+          # halts at this wake-up
+          if not running and stale:
+            for c in stale:
+              c.post_fifo(Event(signal=signals["VC"], payload=-2))
+            s.quiesce()
+            for c in stale:
+              if c.thread.is_alive():
+                raise PropertyViolation("%s: the fabric is stopped, active object %s was woken and is still running" % (
+                  where, c.name), "C13:object-survives-stop")
+            del stale[:]
+        elif k == "object_print":
+          # lines handed to the shared output writer through an object's print(), twice
+          for c in (objects + stale)[:1]:
+            c.print("vf line one")
+            c.print("vf line two")
         elif k == "stop_quietly":
           # stop without waking the active objects: their threads stay alive until their next event
           af.stop()
           running = False
+          degraded[0] = False
           if alive_fabric() or af.is_alive():
             raise PropertyViolation("%s: stop() returned but delivery threads are alive" % where, "C13:stop")
           stale.extend(objects)
@@ -207,6 +261,7 @@ class C13(Prop):
         if k == "stop":
           af.stop()
           running = False
+          degraded[0] = False
           objects.extend(stale)
           del stale[:]
           if alive_fabric():
@@ -250,8 +305,17 @@ class C13(Prop):
           if running and len(objects) < 2:
             before = len(s.threads)
             c = A(name="ao%d" % (len(s.threads)))
+            if case.get("live_objects"):
+              sink = []
+              c.live_spy = c.live_trace = True
+              c.register_live_spy_callback(sink.append)
+              c.register_live_trace_callback(sink.append)
             c.start_at(aocheck.flat_chart(rec, sigs=SIGS + ["VC"]))
             objects.append(c)
+            # an object that finds the fabric not alive starts it: a delivery thread that was taken
+            # down comes back here
+            fabric_threads.extend(t for t in s.threads[before:] if "fabric" in t.name)
+            degraded[0] = False
         elif k == "post":
           for c in objects:
             c.post_fifo(Event(signal=signals["VA"], payload=5))
@@ -270,15 +334,20 @@ class C13(Prop):
 
     s = detsched.Scheduler(schedule=case["schedule"], step_limit=600000,
                            trace_files=[files["activeobject"]])
+    import io
+    import contextlib
     try:
-      detsched.guarded_run(s, body)
+      with contextlib.redirect_stdout(io.StringIO()):      # (object.print() writes to stdout)
+        detsched.guarded_run(s, body)
     except (detsched.Deadlock, detsched.StepLimit) as e:
       raise PropertyViolation("no quiescence: %s" % e, "C13:liveness")
-    if s.thread_errors:
-      name, e, tb = s.thread_errors[0]
+    errors = [x for x in s.thread_errors if not isinstance(x[1], DeliberatePoison)]
+    if errors:
+      name, e, tb = errors[0]
       raise PropertyViolation("thread %s died: %s: %s" % (name, type(e).__name__, e), "C13:thread-error")
     stats.case(case, flags["start_while_running"] or flags["race"],
-               sorted(set("op_" + o[0] for o in case["ops"])) + (["race_stop_saw_new_thread"] if flags.get("stop_assert") else []))
+               sorted(set("op_" + o[0] for o in case["ops"])) + (["race_stop_saw_new_thread"] if flags.get("stop_assert") else []) +
+               (["one_thread_taken_down"] if flags.get("poison") else []))
 
 
 PROP = C13
